@@ -419,13 +419,19 @@ def save_score_midi(
                 )
                 m_ts = part.time_signature_map(measure.start.t)
                 if m_duration_beat != m_ts[0]:
-                    # add ts change
-                    # TODO: add support for changing the beat type if number of beats is not integer
+                    # add ts change; if the number of beats is not an integer,
+                    # use a finer beat type (e.g. half a beat in x/4 is 1/8)
+                    ts_num, ts_den = float(m_duration_beat), int(m_ts[1])
+                    while ts_num != int(ts_num) and ts_den < 64:
+                        ts_num, ts_den = ts_num * 2, ts_den * 2
+                    if ts_num != int(ts_num) or int(ts_num) < 1:
+                        # not expressible as a time signature
+                        continue
                     meta_events[part][to_ppq(measure.start.t)].append(
                         MetaMessage(
                             "time_signature",
-                            numerator=int(m_duration_beat),
-                            denominator=int(m_ts[1]),
+                            numerator=int(ts_num),
+                            denominator=ts_den,
                         )
                     )
                     ts_changing_time.append(
